@@ -407,6 +407,52 @@ def run (cmd : String) : PM String := do
         lv := lv.push (cnt, rr, fun k => a.getD k 0)
       let all := rsetsAll lv.toList
       return "ok" ++ String.join (all.map fun rows => " L " ++ s!"{rows.length}" ++ String.join (rows.map fun r => " " ++ showNats r))
+  | "cross_lsets" => do
+      -- levels j = 0 … N-2 of the left-to-right sweep: count R_{j+1}, I_j, then the R_{j+1} flat pivot positions
+      let L ← pNat
+      let mut lv : Array (Nat × Nat × (Nat → Nat)) := #[]
+      for _ in [0:L] do
+        let cnt ← pNat; let n ← pNat
+        let mut a : Array Nat := #[]
+        for _ in [0:cnt] do a := a.push (← pNat)
+        lv := lv.push (cnt, n, fun k => a.getD k 0)
+      let all := lsetsAll lv.toList.reverse
+      return "ok" ++ String.join (all.map fun rows => " L " ++ s!"{rows.length}" ++ String.join (rows.map fun r => " " ++ showNats r))
+  | "cross_eval" => do
+      -- argument tensor, mode j, Ra Rb, pivots of the modes 0 … j-1 (left sweep) and j+1 … N-1 (right sweep); answer V[a,i,b] flattened
+      let t ← pTensor
+      let j ← pNat; let ra ← pNat; let rb ← pNat
+      let ms := t.memo.modes
+      let mut pre : List (Mode Q × (Nat → Nat)) := []
+      for l in [0:j] do
+        let cnt ← pNat
+        let mut a : Array Nat := #[]
+        for _ in [0:cnt] do a := a.push (← pNat)
+        match ms[l]? with
+        | some m => pre := (m, fun k => a.getD k 0) :: pre
+        | none => throw "mode"
+      let mut post : Array (Mode Q × Nat × (Nat → Nat)) := #[]
+      for l in [j+1:ms.length] do
+        let cnt ← pNat; let rr ← pNat
+        let mut a : Array Nat := #[]
+        for _ in [0:cnt] do a := a.push (← pNat)
+        match ms[l]? with
+        | some m => post := post.push (m, rr, fun k => a.getD k 0)
+        | none => throw "mode"
+      match ms[j]? with
+      | none => throw "mode"
+      | some m =>
+        let Lf := linterface pre
+        let Rf := rinterface post.toList
+        -- tabulate the interfaces once
+        let lt : Array Q := Array.ofFn (n := ra * m.rl) fun t => Lf (t.val / m.rl) (t.val % m.rl)
+        let rt : Array Q := Array.ofFn (n := m.rr * rb) fun t => Rf (t.val / rb) (t.val % rb)
+        let L' : Nat → Nat → Q := fun a p => lt.getD (a * m.rl + p) 0
+        let R' : Nat → Nat → Q := fun q b => rt.getD (q * rb + b) 0
+        let mut out : List Q := []
+        for a in [0:ra] do for i in [0:m.n] do for b in [0:rb] do
+          out := evalPoint L' m R' a i b :: out
+        return "ok " ++ showQs out.reverse
   | "kron_ok" => do
       let ranks ← pNatList; let ind ← pNatList; let outd ← pNatList
       return "ok B " ++ (if kronOK ranks ind outd then "1" else "0")
